@@ -4,3 +4,31 @@
 //! model-checking harness. No logic lives here.
 
 pub use crate::transport::manager::address::{scores, AddressRecord, AddressStore};
+
+/// Offset clock standing in for `std::time::Instant::now()` in the few components that measure time with
+/// `std::time::Instant` (Kademlia store, `FindNodeContext`, `GetRecordContext`).
+pub mod clock {
+    use std::{
+        cell::Cell,
+        time::{Duration, Instant},
+    };
+
+    thread_local! {
+        static OFFSET: Cell<Duration> = const { Cell::new(Duration::ZERO) };
+    }
+
+    /// Current (virtual) time: real monotonic time plus the thread's offset.
+    pub fn now() -> Instant {
+        Instant::now() + OFFSET.with(|o| o.get())
+    }
+
+    /// Move this thread's clock forward.
+    pub fn advance(by: Duration) {
+        OFFSET.with(|o| o.set(o.get() + by));
+    }
+
+    /// Reset this thread's offset to zero.
+    pub fn reset() {
+        OFFSET.with(|o| o.set(Duration::ZERO));
+    }
+}
